@@ -563,8 +563,9 @@ def contentTypeOf : Enc → String
 
 /-- `ApiError::unauthorized().respond(enc)`: status, the complete header set, the body bytes -/
 def rejectionWire (enc : Enc) : Wire :=
-  let body := errorBody enc "unauthorized" "invalid or missing API key"
-  { status := 401,
+  -- status, code and message are the ones `ApiError::unauthorized()` has in the source right now
+  let body := errorBody enc Gen.ServerMethods.unauthorizedCode Gen.ServerMethods.unauthorizedMessage
+  { status := Gen.ServerMethods.unauthorizedStatus,
     headers := [("content-length", toString body.length), ("content-type", contentTypeOf enc)],
     body := body }
 
